@@ -228,6 +228,27 @@ def eval_spec(job):
     return r
 
 
+# explicit two-call histories on ONE fresh Balancer (first call, second call); the oracles are evaluated on the second call
+_T = ["CCO>>CC=O", "CC(=O)C>>CC(O)C", "CCCO.O>>CCC(=O)O"]            # rows that the reagent-template stage rewrites
+_D = ["CC>>CCC", "CCBr>>N", "CCCC>>CC.C"]                            # rows that end declined
+_S = ["CC(=O)OCC>>CC(=O)O", "CC(=O)O.CCO>>CC(=O)OCC.O", "CC=O>>CCO"]  # mcs / balanced / rule-based
+CALL_HISTORIES = [(_T, _D), (_D, _T), (_T, _S), (_S, _T), (_T, _T), (_T[::-1] + _D, _D + _T), (_S + _T, _T + _S + _D)]
+
+
+def eval_history(job):
+    """worker: first call then second call on one fresh Balancer; oracles on the rows of the second call"""
+    first, second, props = job["first"], job["second"], job["props"]
+    hist = [{"rxns": list(first)}]
+    spec = {"rxns": list(second)}
+    if job.get("batch_size"):
+        hist[0]["batch_size"] = spec["batch_size"] = job["batch_size"]
+    r = evaluate(spec, pipeline.run_history(hist, spec), props)
+    for v in r["viol"]:
+        v["case"]["history"] = hist
+        v["what"] += " [second call on a Balancer that first ran {}]".format(first)
+    return r
+
+
 _LOCALISED = {}
 
 
@@ -508,6 +529,9 @@ def drive(prop, universes, seed, level="exploration", minimise=True):
             jobs.append({"spec": spec, "props": props})
             meta.append(name)
     results = pmap("checks.pipefam:eval_spec", jobs, chunk=1, seed=seed, timeout=7200)
+    hjobs = [{"first": a, "second": b, "props": props, "batch_size": bs} for a, b in CALL_HISTORIES for bs in (None, 1)]
+    results += pmap("checks.pipefam:eval_history", hjobs, chunk=1, seed=seed, timeout=7200)
+    meta += ["two-call histories on one fresh Balancer"] * len(hjobs)
     res = Result(level)
     n_rows = 0
     nt = set()
